@@ -7,6 +7,7 @@ from .. import hirlib as H
 from .. import mirlib as M
 from . import c01
 from . import c07
+from . import c15
 
 EXPLANATION = (
     "Equivalence of an import with hand-inlining quantifies over programs and runs and is NOT decided. Decided, all from the "
@@ -333,6 +334,7 @@ def run(ctx):
                                "Ann{tm: implementation, ty: SignatureBoundary(signature)} (rules/golden_scope.json, shared with C07)")
     golden.check(ctx, "assembly-trace", "golden_scope.json", only={"TextualProgramBuilder::import", "TextualProgramBuilder::source"})
     rule_canonical(ctx)
+    c15.rule_path_spelling(ctx)
     rule_dedup(ctx)
     rule_signature(ctx)
     rule_gate(ctx)
